@@ -21,7 +21,7 @@ from mc.ref import ndn_strict as ns
 
 PROPERTY = 'C19'
 PREFIX = '/obj/v1'
-FINALS = ['last-only', 'every', 'absent', 'earlier', 'other-type']
+FINALS = ['last-only', 'every', 'absent', 'earlier', 'other-type', 'first-only']
 
 
 def configs():
@@ -59,6 +59,9 @@ def final_of(cfg, seg):
         return n - 1 if seg == n - 1 else None
     if f == 'every':
         return n - 1
+    if f == 'first-only':
+        # the producer announces the end once, in segment 0, and does not repeat it (the field is optional per packet)
+        return n - 1 if seg == 0 else None
     if f == 'earlier':
         return max(n - 2, 0)
     return None        # 'absent', and 'other-type' (a FinalBlockId that is never equal to the last name component)
@@ -99,9 +102,10 @@ def reference(cfg, decisions):
     if cfg['n'] == 0:
         return ['U'], 'ok', reqs
     k = cfg['k']
+    fin = final_of(cfg, k)          # the segment designated final, once any received segment has said so
     if k == 0:
         ys.append(0)
-        if final_of(cfg, 0) == 0:
+        if fin == 0:
             return ys, 'ok', reqs
         nxt = 1
     else:
@@ -111,7 +115,10 @@ def reference(cfg, decisions):
         if r != 'ok':
             return ys, r, reqs
         ys.append(nxt)
-        if final_of(cfg, nxt) == nxt:
+        f = final_of(cfg, nxt)
+        if f is not None:
+            fin = f
+        if fin is not None and nxt >= fin:
             return ys, 'ok', reqs
         nxt += 1
 
@@ -271,7 +278,7 @@ def plan(tier, seed):
         'bounds': {'configs': len(units), 'segments': '0 (unsegmented), 1..4', 'retry_limits': [1, 2, 3], 'final_variants': FINALS,
                    'deviation_bound': d},
         'assumptions': ['a request for a segment the object does not have is never answered',
-                        'final marker pointing at an earlier segment: the fetch ends after that segment'],
+                        'final marker pointing at an earlier segment: the fetch ends after that segment', 'a final designation is remembered: it need not be repeated on the final segment itself'],
     }
 
 
